@@ -125,6 +125,14 @@ def cases(tier, rng):
         if popcount(o) > 40 and not big:
             continue
         out += [(k + "-synthetic", c) for k, c in tweaks_for("succs", o, a, rng, False)]
+    # 4. synthetic accumulators with REPEATED digests (equal peaks / equal appended leafs, index mod 1, 2, 3)
+    for o in list(range(0, 40)) + [0b1011, 0b1_0110_1011, 2 ** 20 - 1, 2 ** 33 + 2 ** 7 - 1, 2 ** 40 + 2 ** 35 - 1]:
+        for a in (1, 2, 3, 8, 13):
+            for q in (1, 2, 3):
+                out.append(("synthetic-equal-digests", "succq%d %d %d ok" % (q, o, a)))
+            if o in (3, 11, 363, 2 ** 20 - 1) and a in (1, 8):
+                out += [(k + "-equal-digests", c) for k, c in tweaks_for("succq2", o, a, rng, False)
+                        if k in ("missing-surplus", "inconsistent-old", "old-gt-new")]
     return out
 
 
